@@ -322,6 +322,22 @@ Theorem C11_model_meets_oracle_reply : forall (K : crypto) (P : provider) s o s'
 Proof. exact W_reply_ok. Qed.
 Print Assumptions C11_model_meets_oracle_reply.
 
+(* the defect repaired by "StoreCookie keeps at most MaxStoredCookies": whatever an authenticated reply
+   carries - a foreign or misbehaving server may send seven cookies where one was asked for -
+   ProcessResponse never shrinks the pool and never takes it beyond eight *)
+Theorem C11_pool_never_beyond_eight_any_reply :
+  forall (aopen : bytes -> bytes -> bytes -> bytes -> option bytes) reply ks2c reqid c1 c2,
+  client_process aopen reply ks2c reqid c1 = Ok c2 -> (length (pool c1) <= 8)%nat ->
+  (length (pool c1) <= length (pool c2) <= 8)%nat.
+Proof. exact client_process_cap. Qed.
+Print Assumptions C11_pool_never_beyond_eight_any_reply.
+
+(* StoreCookie on its own: any sequence of cookies, of any length *)
+Theorem C11_store_cookie_cap : forall cs p,
+  (length p <= 8)%nat -> (length p <= length (fold_left store_cookie cs p) <= 8)%nat.
+Proof. intros cs p H. split; [apply store_grows|apply store_cap; exact H]. Qed.
+Print Assumptions C11_store_cookie_cap.
+
 (* DecodePacket reads back what EncodePacket wrote: the client's request ... *)
 Theorem C11_decode_request : forall (seal : bytes -> bytes -> bytes -> bytes -> bytes),
   (forall k n p a, zlen (seal k n p a) = zlen p + 16) ->
